@@ -63,6 +63,10 @@ class Analysis:
         self.opaque = {}        # (fname, line) -> assertion with atoms this analysis does not understand
         self.report = False
         self.n_calls = 0
+        self.n_bumps = 0
+        self.inl = []           # Parser methods being walked inline
+        self.lbreaks = {}       # label -> stack of lists of states at `break 'label`
+        self.kinds = {}         # (fname, line) -> kind of the requirement a finding is about
         self.depth = 0
         self.rets = []
 
@@ -85,6 +89,19 @@ class Analysis:
 
     def ncls(self, tok):
         return tok if tok in self.N else OTHER
+
+    def after_bump(self, st):
+        """the token that was next is current now; nothing is known about the one after it"""
+        nxt = {x[1] for x in st.pairs if x[0] != EOF}
+        cur = set()
+        for n in nxt:
+            if n == EOF:
+                cur.add(EOF)
+            elif n == OTHER:
+                cur |= {t for t in self.K if t != EOF and self.ncls(t) == OTHER}
+            else:
+                cur.add(n)
+        return TokState(frozenset((t, n) for t in cur for n in self.N if not (t == EOF and n != EOF)), self.fresh(), False)
 
     # ---- conditions ----------------------------------------------------------------------------------------------------------
     def refine(self, c, st, env, fenv):
@@ -121,6 +138,12 @@ class Analysis:
                 if kk is not None:
                     t = frozenset(x for x in P if x[0] == kk)
                     return t, P - t, True
+            if m == "at_raw" and len(a) == 1 and a[0].get("k") == "path" and a[0]["p"].startswith("TokenKind::"):
+                # the raw current token (trivia included) is K: then the current token is K; if it is not, nothing is learnt (trivia may stand before a K)
+                kk = a[0]["p"].split("::")[-1]
+                if kk in self.K:
+                    return frozenset(x for x in P if x[0] == kk), P, True
+                return P, P, False
             if m == "at_set" and len(a) == 1:
                 s = self.A.tokenset(a[0], fenv)
                 if s != "UNK":
@@ -206,7 +229,7 @@ class Analysis:
         self.block(f.body, st, {})
         return self.pre[fname] - frozenset(self.excluded)
 
-    def fail(self, st, bad, ln, what):
+    def fail(self, st, bad, ln, what, kind="assert"):
         """pairs `bad` of the state violate a requirement at line ln"""
         if not bad:
             return
@@ -215,7 +238,13 @@ class Analysis:
         elif self.report:
             toks = sorted({x[0] for x in bad})
             nx = sorted({x[1] for x in bad})
-            self.findings.append((self.cur, ln, "%s; the current token may be %s%s" % (what, ", ".join(toks[:6]) + (" .. (%d kinds)" % len(toks) if len(toks) > 6 else ""),
+            where = "Parser::" + self.inl[-1] if self.inl else self.cur
+            if self.inl:
+                what = "%s (entered from %s)" % (what, self.cur)
+                if (where, ln) in self.kinds:
+                    return      # one report per site of a Parser method, not one per call site
+            self.kinds[(where, ln)] = kind
+            self.findings.append((where, ln, "%s; the current token may be %s%s" % (what, ", ".join(toks[:6]) + (" .. (%d kinds)" % len(toks) if len(toks) > 6 else ""),
                                                                                     "" if set(nx) >= set(self.N) - {EOF} else " followed by " + ", ".join(nx[:4]))))
 
     def block(self, b, st, env):
@@ -269,10 +298,14 @@ class Analysis:
             return st
         k = e.get("k")
         if k == "block":
-            out = self.block(e, st, env)
-            if e.get("label") and any(x.get("k") == "break" and x.get("label") == e["label"] for x in walk(e)):
-                return self.all_state()
-            return out
+            if e.get("label"):
+                # the state behind a labelled block joins the state at its end with the states at every `break 'label`
+                self.lbreaks.setdefault(e["label"], []).append([])
+                out = self.block(e, st, env)
+                for s_ in self.lbreaks[e["label"]].pop():
+                    out = self.join(out, s_)
+                return out
+            return self.block(e, st, env)
         if k == "if":
             c = e["c"]
             if c.get("k") == "let":
@@ -345,6 +378,8 @@ class Analysis:
             st1 = self.expr(e.get("e"), st, env)
             if k == "return" and self.depth > 0 and st1 is not None:
                 self.rets.append(st1)
+            if k == "break" and e.get("label") and self.lbreaks.get(e["label"]) and st1 is not None:
+                self.lbreaks[e["label"]][-1].append(st1)
             return None
         if k == "continue":
             return None
@@ -395,7 +430,12 @@ class Analysis:
             if st1 is None:
                 return None
             if canon(e["r"]) in ("p", "self") and e["m"] in self.may_bump:
-                if e["m"] == "bump" or e["m"] not in self.pm or self.depth > 6:
+                if e["m"] == "bump":
+                    # the cursor never moves past the end of the input: bump() needs a current token
+                    self.n_bumps += 1
+                    self.fail(st1, frozenset(x for x in st1.pairs if x[0] == EOF), e["ln"], "bump() is reached where the input may be at its end", kind="bump-at-eof")
+                    return self.after_bump(st1)
+                if e["m"] not in self.pm or self.depth > 6:
                     return self.all_state()
                 return self.inline(self.pm[e["m"]], e["a"], st1)
             return st1
@@ -456,11 +496,13 @@ class Analysis:
         saved_fenv, saved_rets = self.fenv, self.rets
         self.fenv, self.rets = dict(self.A.base_env(f, ()), **new_env), []
         self.depth += 1
+        self.inl.append(f.qual.rsplit("::", 1)[-1])
         try:
             out = self.block(f.body, st, {})
             for r in self.rets:
                 out = self.join(out, r)
         finally:
+            self.inl.pop()
             self.depth -= 1
             self.fenv, self.rets = saved_fenv, saved_rets
         return out if out is not None else self.all_state()
@@ -490,7 +532,9 @@ class Analysis:
                 break
         self.report = True
         self.findings = []
+        self.kinds = {}
         self.n_calls = 0
+        self.n_bumps = 0
         for name in self.fns:
             self.run_fn(name)
         return rounds
